@@ -61,11 +61,12 @@ impl Check for SampleStats {
             o.nontrivial = true;
             return Ok(());
         }
-        let ex = match c01_gate(xs, 6, 2, o) {
+        let long = n > 200_000;
+        let ex = match c01_gate(xs, if long { 4 } else { 6 }, 2, o) {
             Some(e) => e,
             None => return Ok(()),
         };
-        let hi = order_ok(&ex, 6);
+        let hi = !long && order_ok(&ex, 6);
         let r = 16.0 * ex.nku();
         let sv = ex.sample_var();
         let env = r * sv.to_f64();
@@ -156,7 +157,7 @@ pub fn fixed() -> Vec<Xs> {
     v
 }
 
-static SHAPES: [usize; 12] = [2, 3, 10, 10, 4, 5, 6, 11, 1, 0, 8, 12];
+static SHAPES: [usize; 14] = [2, 3, 10, 10, 4, 5, 6, 11, 1, 0, 8, 12, 13, 13];
 
 pub fn run(cx: &Ctx) {
     cx.set_rule("cases = sequences of length 0, 1, 2, 3, 4 and longer over the C01 domain (non-zero spread from n = 2), skewed in both directions; sample_variance of Variance, Skewness, Kurtosis, WeightedMeanWithError, Moments4 and a harness-instantiated order-6 define_moments! type, variance_of_mean/error/error_mean, sample_skewness (adjusted Fisher-Pearson, n >= 3) and sample_excess_kurtosis (n >= 4) judged against the exact textbook values (envelopes of DESIGN.md 4.1); below the minimum sample sizes the documented NaN / 0 sentinels, and |sample_skewness| <= envelope for n = 2. All comparisons are NaN-aware. Non-trivial = |G1| > 0.1 (or a threshold-table case); distinct = hash of the sequence bits");
@@ -172,6 +173,13 @@ pub fn run(cx: &Ctx) {
     let strat = move || gen::dataset_shapes(&SHAPES, 2, 3000, big, 11.9).prop_map(|xs| Xs { xs: rescale_for_order(&xs, 6) });
     cx.label("generated");
     cx.run_pt(&SampleStats, cases, w, strat, "n 2..=30000 (quick 3000), both signs of skew");
+    if cx.thorough() {
+        // sample sizes at and beyond the C01 bound 10^6 (integer products of n overflow u64 from ~2.6e6 on)
+        cx.label("bulk");
+        let pl = gen::Placement { shape: 2, order: 0, ls: 0.0, lk: Some(1.0), neg: false };
+        let cases: Vec<Xs> = [1_000_000usize, 2_700_000].iter().map(|&n| Xs { xs: gen::bulk_dataset(n, cx.seed ^ 0xC10 ^ n as u64, &pl) }).collect();
+        cx.run_list(&SampleStats, cases, "two exponential samples of 10^6 and 2.7*10^6 observations");
+    }
 }
 
 pub fn replay(check: &str, case: &serde_json::Value) -> Option<Result<(), String>> {
